@@ -263,14 +263,17 @@ def histories(draw, tier):
         b = draw(st.sampled_from(pts))
         if b < a:
             a, b = b, a
-        qk = draw(st.sampled_from(["read", "read", "ffill", "ffill", "cols", "colstr", "latest", "bounds", "fields", "single", "nocolumn"]))
+        qk = draw(st.sampled_from(["read", "read", "ffill", "ffill", "cols", "colstr", "latest", "bounds", "fields", "single", "nocolumn",
+                                   "ffill1", "ffillcols"]))
         q = {"q": qk, "a": a, "b": b}
         if qk in ("cols",):
             q["columns"] = draw(st.lists(st.sampled_from(top), min_size=1, max_size=2, unique=True))
         if qk == "colstr":
             q["columns"] = draw(st.sampled_from(top))
-        if qk == "ffill":
+        if qk in ("ffill", "ffill1", "ffillcols"):
             q["method"] = draw(st.sampled_from(["ffill", "pad"]))
+        if qk == "ffillcols":
+            q["columns"] = draw(st.one_of(st.sampled_from(top), st.lists(st.sampled_from(top), min_size=1, max_size=2, unique=True)))
         queries.append(q)
     # how sample indices are passed to writer and reader: Python ints, or the numpy integers that index arithmetic yields
     at = draw(st.sampled_from(["int", "int", "i64", "u64"]))
@@ -514,6 +517,16 @@ def run_case(case, visible_hook=None):
                             nt = True
                     check_read(res, lambda s, dd: fail("ffill-" + s, dd), "read(%d,%d,method=%r)" % (a, b, q["method"]),
                                r.read(IT(a), IT(b), method=q["method"]), model, exp)
+                elif q["q"] == "ffill1":
+                    # one index, end_sample left at its default: the latest sample at or before it
+                    prev = [k for k in keys_all if k <= a]
+                    check_read(res, lambda s, dd: fail("ffill-" + s, dd), "read(%d,method=%r)" % (a, q["method"]),
+                               r.read(IT(a), method=q["method"]), model, prev[-1:])
+                elif q["q"] == "ffillcols":
+                    prev = [k for k in keys_all if k <= a]
+                    exp = prev[-1:] + [k for k in keys_all if a < k <= b]
+                    check_read(res, lambda s, dd: fail("ffill-" + s, dd), "read(%d,%d,columns=%r,method=%r)" % (a, b, q["columns"], q["method"]),
+                               r.read(IT(a), IT(b), columns=q["columns"], method=q["method"]), model, exp, q["columns"])
                 elif q["q"] == "latest":
                     check_read(res, lambda s, dd: fail("latest-" + s, dd), "read_latest()", r.read_latest(), model, [keys_all[-1]])
                 elif q["q"] == "bounds":
